@@ -106,8 +106,7 @@ def rule_no_mut_view(ctx, rule="C16/no-mut-view"):
                   "write_all does %s" % calls, nontrivial=False)
 
 
-def rule_append_law(ctx):
-    R = "C16/append-law"
+def rule_append_law(ctx, R="C16/append-law"):
     # reserve
     b = ctx.body(R, "mem_writer::Buffer::reserve")
     if b is not None:
@@ -321,8 +320,7 @@ def rule_slot_siblings(ctx, R="C16/slot-siblings"):
                   "%s can fail before/without writing (%s): a slot that lies wholly inside the buffer may be left unfilled" % (fn.split("::")[-1], "; ".join(local)[:200]))
 
 
-def rule_write_at_window(ctx):
-    R = "C16/write-at-window"
+def rule_write_at_window(ctx, R="C16/write-at-window"):
     b = ctx.body(R, "mem_writer::Buffer::write_at")
     if b is None:
         return
@@ -349,8 +347,7 @@ def rule_write_at_window(ctx):
         ctx.check(okg, R, "grow-guard", b.where(bi), "the resize happens only when fewer than size bytes remain", "resize guard not recognised")
 
 
-def rule_position_owner(ctx):
-    R = "C16/position-owner"
+def rule_position_owner(ctx, R="C16/position-owner"):
     allowed = {"mem_writer::MemoryWriter::alloc", "mem_writer::MemoryWriter::alloc_with_val", "mem_writer::MemoryArrayWriter::alloc_array",
                "mem_writer::MemoryArrayWriter::alloc_from_array", "mem_writer::MemoryArrayWriter::alloc_from_iter", "mem_writer::MemoryArrayWriter::write_bytes"}
     n = 0
